@@ -326,6 +326,8 @@ def add_timing(case, r):
     blocks, _ = spec_sites(case)
     case["timed"] = True
     case["period_us"] = P
+    # a third of the timed robots set their period on the instance (createObjects) instead of as a class attribute
+    case["period_on_instance"] = (P + len(case["ticks"])) % 3 == 0
     jit = [0]
     for t in case["ticks"][1:]:
         jit.append(0 if (t == "end" or t[0] == "fms") else r.choice([0, 0, 1, P // 20, P // 5, P // 3, P // 2]))
